@@ -476,7 +476,18 @@ class CompMixin(Interp):
         if isinstance(v, VFam) or (isinstance(v, VRef) and not self.source(st, v).concrete):
             s = self.source(st, v)
             if key is not None:
-                raise Unsupported("min/max with key over abstract collection")
+                # some element whose key is extremal (Python returns the FIRST such element; any one of them is a sound
+                # over-approximation): a witness instance of the binders
+                ke = self.force(st, self.call_value(st, key, [s.elem], {}, node))
+                if not isinstance(ke, NUM):
+                    raise Unsupported("min/max with a non-numeric key over abstract collection")
+                kt = self.as_int(ke) if isinstance(ke, VBool) else ke.t
+                self.oblige(st, "valueerror-empty", self.exists(s.binders, s.guard), where=self.where(node, st))
+                wit = [(b, self.fresh(st, "argm", b.sort())) for b in s.binders]
+                kw_ = z3.substitute(kt, *wit)
+                st.pc.append(z3.substitute(s.guard, *wit))
+                st.pc.append(self.forall(s.binders, z3.Implies(s.guard, (kt <= kw_) if is_max else (kt >= kw_))))
+                return subst(s.elem, wit)
             e = s.elem
             if not isinstance(e, NUM):
                 raise Unsupported("min/max over non-numeric abstract collection")
